@@ -2,6 +2,7 @@ package udp
 
 import (
 	"context"
+	"errors"
 	"net"
 	"sync"
 	"time"
@@ -36,6 +37,12 @@ func (s AssociationState) String() string {
 	}
 }
 
+// ErrSessionKeyCleared is returned by Encrypt and Decrypt when the association
+// was established with an E2E session key and that key has been cleared
+// (the association is closed). Data is dropped rather than sent or accepted
+// in plaintext.
+var ErrSessionKeyCleared = errors.New("session key cleared: association closed")
+
 // Association represents an active UDP tunnel through the mesh.
 type Association struct {
 	mu sync.RWMutex
@@ -56,6 +63,7 @@ type Association struct {
 
 	// Encryption
 	SessionKey *crypto.SessionKey
+	encrypted  bool // a session key was installed at establishment: never fall back to plaintext afterwards
 
 	// Client tracking (for return path)
 	ClientAddr *net.UDPAddr // SOCKS5 client's address (for ingress)
@@ -182,6 +190,9 @@ func (a *Association) SetSessionKey(key *crypto.SessionKey) {
 	defer a.mu.Unlock()
 
 	a.SessionKey = key
+	if key != nil {
+		a.encrypted = true
+	}
 }
 
 // GetSessionKey returns the E2E encryption session key.
@@ -193,7 +204,9 @@ func (a *Association) GetSessionKey() *crypto.SessionKey {
 }
 
 // Encrypt encrypts data using the session key.
-// Returns the original data if no session key is set.
+// Returns the original data if the association was established without a session
+// key (keyless mode). Once a key has been installed, a cleared key (Close)
+// makes Encrypt fail with ErrSessionKeyCleared instead of passing the data through.
 //
 // The RLock is held for the duration of the crypto operation so that a
 // concurrent Close (which zeros the key bytes) cannot race a use of the
@@ -205,6 +218,9 @@ func (a *Association) Encrypt(plaintext []byte) ([]byte, error) {
 	defer a.mu.RUnlock()
 
 	if a.SessionKey == nil {
+		if a.encrypted {
+			return nil, ErrSessionKeyCleared
+		}
 		return plaintext, nil
 	}
 
@@ -212,7 +228,7 @@ func (a *Association) Encrypt(plaintext []byte) ([]byte, error) {
 }
 
 // Decrypt decrypts data using the session key.
-// Returns the original data if no session key is set.
+// Returns the original data only in keyless mode; see Encrypt.
 //
 // See Encrypt for the lock-holding rationale.
 func (a *Association) Decrypt(ciphertext []byte) ([]byte, error) {
@@ -220,6 +236,9 @@ func (a *Association) Decrypt(ciphertext []byte) ([]byte, error) {
 	defer a.mu.RUnlock()
 
 	if a.SessionKey == nil {
+		if a.encrypted {
+			return nil, ErrSessionKeyCleared
+		}
 		return ciphertext, nil
 	}
 
